@@ -109,7 +109,7 @@ def gen(rng, cid, nops):
         k, c = new("valid", f)
         ops.append({"op": "write", "file": f, "text": content(k, c)})
         state[f] = (k, c)
-    scn = {"id": cid, "seed": rng.randint(1, 10**6), "base": BASE, "initial": initial, "ops": ops, "yield_us": rng.choice([0, 100, 400])}
+    scn = {"id": cid, "seed": rng.randint(1, 10**6), "base": BASE, "initial": initial, "ops": ops, "yield_us": rng.choice([0, 100, 400]), "mutex_yield_ppm": rng.choice([0, 20000, 200000])}
     meta = {"final": {f: list(v) for f, v in state.items()}, "initial": {f: list(v) for f, v in init_state.items()}, "recreated": recreated, "invalid": invalid}
     return scn, meta
 
